@@ -193,8 +193,11 @@ fn main() {
             let prop = v["property"].as_str().unwrap().to_string();
             let mut engine = make_engine(&prop).expect("engine");
             let plan = engine.plan(&prop, "quick");
+            let died = v["fingerprint"].as_str().map_or(false, |f| f.starts_with("abort") || f.starts_with("hang"));
             let o = if plan.isolate {
                 engine::run_isolated(&prop, &v["case"], plan.case_timeout_s, plan.timeout_is_violation)
+            } else if died {
+                engine::run_isolated(&prop, &v["case"], 60, true)
             } else {
                 engine::run_guarded(engine.as_mut(), &prop, &v["case"])
             };
